@@ -26,6 +26,17 @@ def keys(c, stride=1):
         ks += [bytes.fromhex(h) for h in WEAK + SEMIWEAK]
         base = expander(8, 2)
         ks += [bytes(b ^ (1 if i == j else 0) for i, b in enumerate(base)) for j in range(8)]   # keys differing only in parity bits
+        # every key whose first and last round keys coincide (256, of which 4 are the weak keys), and coincidences of
+        # neighbouring round keys: key-schedule value classes that no key family reaches by chance
+        from mc.refs import blockciphers as _R
+        ks += _R.des_keys_with_equal_round_keys(0, 15)[::stride]
+        ks += _R.des_keys_with_equal_round_keys(0, 1)[1::max(stride, 2) * 4]
+        ks += _R.des_keys_with_equal_round_keys(7, 8)[1::max(stride, 2) * 4]
+    if c == 'tdea':
+        from mc.refs import blockciphers as _R
+        sp = _R.des_keys_with_equal_round_keys(0, 15)
+        e = expander(8, 12)
+        ks += [sp[37] + e + sp[201], e + sp[99] + e, sp[5] + sp[5] + sp[250]]
     if c.startswith('tf'):
         # keys whose derived parity word k_Nw = C240 ^ k_0 ^ ... takes boundary values (an intermediate that is 0, 1, 2^32-1, ...)
         C240 = 0x1BD11BDAA9FC1A22
